@@ -48,6 +48,66 @@ impl std::fmt::Display for Nested<'_> {
     }
 }
 
+/// child: `fvh child concstd <mode> <out|err> <seed> <file: one thread per line, comma-separated hex lines>`
+/// — the threads log their lines concurrently through one `Logger` to stdout/stderr
+pub fn child_concstd(args: &[String]) {
+    let mode = crate::props::stdout::mode_of(&args[0]);
+    let mut l = flexi_logger::Logger::with(flexi_logger::LogSpecification::trace()).format(crate::props::flw::raw_format).write_mode(mode);
+    l = if args[1] == "out" { l.log_to_stdout() } else { l.log_to_stderr() };
+    let (boxed, handle) = l.build().unwrap();
+    let boxed: Arc<Box<dyn log::Log>> = Arc::new(boxed);
+    install_noise(args[2].parse().unwrap_or(1));
+    // (the programs come in a file, one thread per line: they can be larger than an argument list)
+    let text = std::fs::read_to_string(&args[3]).expect("program file");
+    let threads: Vec<Vec<Vec<u8>>> = text.lines().map(|t| t.split(',').filter(|h| !h.is_empty()).map(|h| unhex(h).unwrap()).collect()).collect();
+    let barrier = Arc::new(std::sync::Barrier::new(threads.len()));
+    let mut joins = Vec::new();
+    for ls in threads {
+        let b = boxed.clone();
+        let barrier = barrier.clone();
+        joins.push(std::thread::spawn(move || {
+            barrier.wait();
+            for l in ls {
+                let payload = String::from_utf8(l[..l.len() - 1].to_vec()).unwrap();
+                b.log(&Record::builder().level(log::Level::Info).target("t").args(format_args!("{}", payload)).build());
+            }
+        }));
+    }
+    for j in joins { let _ = j.join(); }
+    handle.shutdown();
+    std::process::exit(0);
+}
+
+/// the observed stream as a global order of `(thread, line)` plus the first thing that is wrong
+fn observe(threads: &[Vec<Vec<u8>>], all: &[u8]) -> (Vec<String>, Vec<Vec<u8>>, Option<String>) {
+    let mut obs: Vec<String> = Vec::new();
+    let mut obs_lines: Vec<Vec<u8>> = Vec::new();
+    let mut next: Vec<usize> = vec![0; threads.len()];
+    let mut bad: Option<String> = None;
+    for raw in all.split_inclusive(|b| *b == b'\n') {
+        let found = threads.iter().enumerate().find_map(|(t, ls)| ls.iter().position(|l| l.as_slice() == raw).map(|k| (t, k)));
+        match found {
+            Some((t, k)) => {
+                if next[t] != k && bad.is_none() {
+                    bad = Some(format!("thread {t}: line #{k} appears where #{} was expected (per-thread order / duplicate / loss)", next[t]));
+                }
+                next[t] = k + 1;
+                obs.push(format!("{t}:{k}"));
+                obs_lines.push(raw.to_vec());
+            }
+            None => {
+                if bad.is_none() { bad = Some(format!("a line in the output is not one of the logged lines (torn or foreign): {:?}", String::from_utf8_lossy(raw))); }
+            }
+        }
+    }
+    for (t, ls) in threads.iter().enumerate() {
+        if next[t] != ls.len() && bad.is_none() {
+            bad = Some(format!("thread {t}: {} of {} lines found in the output", next[t], ls.len()));
+        }
+    }
+    (obs, obs_lines, bad)
+}
+
 pub fn line_for(t: usize, k: usize, len: usize) -> Vec<u8> {
     let mut s = format!("t{t}-{k}:");
     while s.len() + 1 < len {
@@ -203,6 +263,31 @@ pub fn execute(ctx: &mut Ctx, lines: &[String]) -> Vec<(Vec<String>, Vec<String>
                 flexi_logger::verif_hooks::set_virtual_now(None);
                 let _ = std::fs::remove_dir_all(&dir);
             }
+            // RUNSTD <out|err> <buf:N|_> <noise-seed>: the same programs through one Logger to stdout /
+            // stderr in a child process whose stream is captured; rewritten into the observed order
+            ["RUNSTD", target, cap, seed] => {
+                let m = if mode == "async" {
+                    match wmode { Some(WriteMode::AsyncWith { pool_capa, message_capa, .. }) => format!("async:{pool_capa}:{message_capa}"), _ => "async:5:100".into() }
+                } else if *cap == "_" { "direct".to_string() } else { format!("buf:{cap}") };
+                let exe = std::env::current_exe().unwrap();
+                let targs: Vec<String> = threads.iter().map(|ls| ls.iter().map(|l| hex(l)).collect::<Vec<_>>().join(",")).collect();
+                std::fs::create_dir_all(&ctx.work).unwrap();
+                let pf = ctx.work.join(format!("concstd-{}-{}.txt", std::process::id(), ctx.case_no));
+                std::fs::write(&pf, targs.join("\n") + "\n").unwrap();
+                let o = std::process::Command::new(exe).arg("child").arg("concstd").arg(&m).arg(target).arg(seed).arg(&pf).output().expect("child");
+                let _ = std::fs::remove_file(&pf);
+                let all = if *target == "out" { o.stdout } else { o.stderr };
+                let (obs, _lines, mut bad) = observe(&threads, &all);
+                if !o.status.success() && bad.is_none() { bad = Some(format!("the child ended with {:?}", o.status)); }
+                ctx.report.count(&format!("runstd.{}.{target}", m.split(':').next().unwrap()));
+                ctx.report.add("lines", obs.len() as u64);
+                ctx.report.nontrivial_case(lines);
+                if let Some(b) = &bad {
+                    ctx.report.fail(&case_id, "concurrent-lines", &format!("{b}; mode {m}, output {target}"));
+                }
+                eff.push(format!("OBS {}", obs.join(" ")));
+                ans.push(if bad.is_none() { "ok".into() } else { format!("reject {}", bad.unwrap()) });
+            }
             _ => { eff.push(line.clone()); ans.push(format!("bad-op {line}")); }
         }
     }
@@ -243,6 +328,15 @@ pub fn gen_c03(tier: &str, seed: u64) -> Vec<Vec<String>> {
                 if recursive && i + 1 < nl && r.chance(1, 3) { format!("R{h}") } else { h }
             }).collect();
             c.push(format!("THREAD {t} {}", ls.join(" ")));
+        }
+        if k % 4 == 3 {
+            // stdout / stderr as output (a child process whose stream is captured); no nested logging
+            // here (known finding C10-recursion-buffered-stdout)
+            for l in c.iter_mut() { if l.starts_with("THREAD ") { *l = l.replace(" R", " "); } }
+            c.push(format!("RUNSTD {} {} {}", r.pick_s(&["out", "err"]), cap.map_or("_".into(), |x| x.to_string()), r.next() % 1_000_000));
+            c.push("END".into());
+            cases.push(c);
+            continue;
         }
         c.push(spec);
         c.push(format!("CFG {};_;{};never 0 {} 0 {}", max_size, naming, cap.map_or("_".into(), |x| x.to_string()), has_suffix as u8));
